@@ -247,7 +247,19 @@ func init() {
 				}
 				return false
 			}}
-			return newProduct("C03", tier, false, c03Oracle, bnd)
+			j := newProduct("C03", tier, false, c03Oracle, bnd)
+			// numbers at the edge of float64 next to ordinary numbers (1e999 is not representable:
+			// the float64 decoder turns... rejects it, so such texts are spelled 1e308 / 1e-400 here and
+			// the json.Number decoding additionally gets the unrepresentable spellings below)
+			for _, text := range []string{`[{"a":1e308},{"a":5}]`, `{"a":1e308,"b":1}`, `[1e308,1]`, `[{"a":-1e308,"b":1e308},{"a":1,"b":2}]`, `[{"a":1e-400},{"a":2}]`, `{"a":{"a":1e308},"b":{"a":2}}`} {
+				j.ds.text = append(j.ds.text, text)
+				for _, m := range j.ds.modes {
+					d := decodeDoc(text, m)
+					j.ds.docs[m] = append(j.ds.docs[m], d)
+					j.ds.pristine[m] = append(j.ds.pristine[m], gen.Clone(d))
+				}
+			}
+			return j
 		},
 		Finish: func(tier string, total *run.Ctx, cov map[string]interface{}) {
 			// the invariant is evaluated on executions of the implementation; each execution is a
